@@ -603,6 +603,8 @@ def handlers : List (String × Handler) :=
       | _ => v),
    ("fn", fn), ("prog", prog), ("api", api), ("apix", apix), ("parse", parseH), ("sw", swH), ("pk", pkH), ("embed", embedH),
    ("rep", rep), ("rtrip", rtWith false), ("rtparse", rtWith true), ("scribble", scribble),
-   ("repx", fun a i => { (rep a i) with more := [] }), ("rtx", fun a i => { (rtWith false a i) with more := [] })]
+   -- literal values: the repeated-call oracle ("same answer every time") applies to any value whatsoever; the
+   -- size-vs-bytes part belongs to C06 and is judged on API-built values only
+   ("repx", fun a i => let v := rep a i; { v with more := v.more.filter (fun (_, d) => !d.startsWith "size ") }), ("rtx", fun a i => { (rtWith false a i) with more := [] })]
 
 end OFV.Driver.OF
